@@ -39,18 +39,21 @@ ASSUMPTIONS = [
     "prec*(D^T D + sqrt(eps) I) (documented as experimental/regularised); the stencil D itself is the C20 reference",
     "sqrtcov is only exercised with symmetric or diagonal matrices (R^T R == R R^T), the non-symmetric convention is "
     "finding #18 of another property",
-    "inner solver forced to convergence with maxit >= 10*(rows of the stacked system)+200 and tol=1e-14; generated "
+    "inner solver forced to convergence with maxit = 10*(rows of the stacked system)+200 and tol=1e-13 (relaxed 100x and the "
+    "transition repeated when CGLS leaves through its divergence exit, see known finding); generated "
     "posteriors have precision condition number <= 1e6 (otherwise the case is regenerated / inconclusive)",
 ]
 REQUIRED_COUNTERS = {
-    "quick": {"rto_mean_checked": 60, "rto_cov_entries_checked": 1500, "rto_affine_checked": 150,
-              "rto_state_independence_checked": 100, "rto_chain_draws_checked": 100,
-              "stacked_adjoint_checked": 300, "ugla_mean_checked": 30, "ugla_cov_entries_checked": 500,
-              "normal_draws_scripted": 2000},
-    "thorough": {"rto_mean_checked": 600, "rto_cov_entries_checked": 15000, "rto_affine_checked": 1500,
-                 "rto_state_independence_checked": 1000, "rto_chain_draws_checked": 1000,
-                 "stacked_adjoint_checked": 3000, "ugla_mean_checked": 300, "ugla_cov_entries_checked": 5000,
-                 "normal_draws_scripted": 20000},
+    "quick": {"rto_mean_checked": 150, "rto_cov_entries_checked": 4500, "rto_affine_checked": 300,
+              "rto_state_independence_checked": 450, "rto_chain_draws_checked": 450,
+              "stacked_adjoint_checked": 12000, "stacked_normal_matrix_checked": 170,
+              "ugla_mean_checked": 100, "ugla_cov_entries_checked": 3500, "ugla_affine_checked": 200,
+              "normal_draws_scripted": 5000, "cgls_solves_observed": 5000},
+    "thorough": {"rto_mean_checked": 1300, "rto_cov_entries_checked": 60000, "rto_affine_checked": 2500,
+                 "rto_state_independence_checked": 4000, "rto_chain_draws_checked": 4000,
+                 "stacked_adjoint_checked": 150000, "stacked_normal_matrix_checked": 1400,
+                 "ugla_mean_checked": 700, "ugla_cov_entries_checked": 25000, "ugla_affine_checked": 1400,
+                 "normal_draws_scripted": 40000, "cgls_solves_observed": 40000},
 }
 BUDGET_S = {"quick": 240.0, "thorough": 2400.0}
 
@@ -64,14 +67,14 @@ MODELS = ["matrix", "function", "sparse"]
 IFACES = ["exp", "legacy"]
 BCS = ["zero", "periodic", "neumann"]
 RTOL = 1e-6          # errors on the unchanged tree are <= 1e-9 relative (see report); defects of interest are O(1)
-SOLVER_TOL = 1e-14   # CGLS stops at |H (x*-x_k)| <= tol |H (x*-x_0)|  =>  |x*-x_k| <= tol cond(H) |x*-x_0|
+SOLVER_TOL = 1e-13   # CGLS stops at |H (x*-x_k)| <= tol |H (x*-x_0)|  =>  |x*-x_k| <= tol cond(H) |x*-x_0|
 EPS = float(np.finfo(float).eps)
 COND_MAX = 1e6
 
-def _xtol(scale, cond, dist, xmax):
+def _xtol(scale, cond, dist, xmax, solver_tol=None):
     """Absolute tolerance of one draw: RTOL*scale plus 100x the a-priori error bound of the inner solver
     (stopping rule relative to the initial residual, attainable accuracy eps*cond)."""
-    return RTOL * scale + 100.0 * SOLVER_TOL * cond * dist + 100.0 * EPS * cond * xmax
+    return RTOL * scale + 100.0 * (solver_tol or SOLVER_TOL) * cond * dist + 100.0 * EPS * cond * xmax
 
 # --------------------------------------------------------------------------- case descriptors
 
@@ -328,24 +331,88 @@ class FeedHolder:
     def __call__(self, shape, api, seq):
         return self.cur(shape, api, seq)
 
+class SolverWatch:
+    """Recording pass-through around cuqi.solver.CGLS.solve (the class object the samplers look up):
+    number of iterations used, the iteration cap and the size of the returned iterate."""
+    def __init__(self):
+        self.calls = []
+    def __enter__(self):
+        import cuqi
+        self.cls = cuqi.solver.CGLS
+        self.orig = self.cls.solve
+        watch, orig = self, self.orig
+        def solve(solver):
+            x, k = orig(solver)
+            xa = np.asarray(x, dtype=float)
+            finite = bool(np.all(np.isfinite(xa)))
+            watch.calls.append({"k": int(k), "maxit": int(solver.maxit), "tol": float(solver.tol),
+                                "xmax": float(np.max(np.abs(xa))) if finite and xa.size else float("inf"),
+                                "xnorm": float(np.linalg.norm(xa)) if finite and xa.size else float("inf")})
+            return x, k
+        self.cls.solve = solve
+        return self
+    def __exit__(self, *a):
+        self.cls.solve = self.orig
+        return False
+    def diverged(self):
+        """CGLS left through its emergency exit |x|*tol >= 1 (or produced non-finite values) before maxit."""
+        return [c for c in self.calls if (not np.isfinite(c["xnorm"])) or c["xnorm"] * c["tol"] >= 0.999]
+    def exhausted(self):
+        return [c for c in self.calls if c["k"] >= c["maxit"]]
+
 class Drawer:
-    """One scripted transition of a sampler: draw(state, e) -> next state (1-d array)."""
+    """One scripted transition of a sampler: draw(state, e) -> next state (1-d array).
+
+    "Inner solver run to convergence" is part of the property's premise.  cuqi.solver.CGLS stops relative to the
+    *initial* residual; when that threshold lies below the attainable accuracy (start close to the solution) the
+    iteration does not stagnate but diverges until |x|*tol >= 1.  Such a transition is outside the premise: it is
+    reported under its own mechanism and the transition is repeated with the solver tolerance relaxed by 100x
+    (the comparison tolerances follow the loosest tolerance that was used)."""
     def __init__(self, ctx, cfg):
         self.ctx, self.cfg = ctx, cfg
         self.N = None
         self.layout = None
         self.bad = None
+        self.loosest_tol = SOLVER_TOL
+        self.unconverged = 0
 
     def _run(self, state, feed, steps=1):
         raise NotImplementedError
 
-    def draw(self, state, e, steps=1):
+    def _draw_once(self, state, e, steps):
         feed = Feed(e)
         with Scripted(normal=feed) as rec:
             x = self._run(np.array(state, dtype=float, copy=True), feed, steps)
         other = [d for d in rec.draws if d[1] not in ("randn", "standard_normal", "normal")]
         self._after(feed, other, steps)
         return np.array(x, dtype=float, copy=True)
+
+    def draw(self, state, e, steps=1):
+        state = np.asarray(state, dtype=float)
+        try:
+            for attempt in range(3):
+                tol = SOLVER_TOL * 100.0 ** attempt
+                self.s.tol = tol
+                with SolverWatch() as w:
+                    x = self._draw_once(state, e, steps)
+                self.ctx.count("cgls_solves_observed", len(w.calls))
+                div, exh = w.diverged(), w.exhausted()
+                if w.calls and not div and not exh:
+                    self.loosest_tol = max(self.loosest_tol, tol)
+                    return x
+                if div:
+                    self.ctx.count("inner_solver_diverged_seen", len(div))
+                    self.ctx.violation("inner_solver_diverged", {"sampler": self.cfg.get("sampler"), "solver": "CGLS", "exit": "normx*tol>=1"},
+                                       detail=f"CGLS(maxit={div[0]['maxit']}, tol={div[0]['tol']}) left after {div[0]['k']} iterations with max|x|={div[0]['xmax']:.3g} "
+                                              f"(start state max {np.max(np.abs(state)):.3g}); iteration continued past the attainable accuracy and diverged")
+                elif exh:
+                    self.ctx.count("inner_solver_hit_maxit", len(exh))
+                if attempt < 2:
+                    self.ctx.count("draw_repeated_with_relaxed_tol")
+            self.unconverged += 1
+            return x                              # judged as it is
+        finally:
+            self.s.tol = SOLVER_TOL
 
     def _after(self, feed, other, steps):
         self.ctx.count("normal_draws_scripted", len(feed.layout))
@@ -374,9 +441,9 @@ class LegacyDrawer(Drawer):
     def __init__(self, ctx, cfg, sampler, holder=None):
         super().__init__(ctx, cfg)
         self.s, self.holder = sampler, holder
-    def draw(self, state, e, steps=1):
+    def _draw_once(self, state, e, steps):
         if self.holder is None:
-            return super().draw(state, e, steps)
+            return super()._draw_once(state, e, steps)
         feed = Feed(e)                                  # rng= object scripted instead of the global stream
         self.holder.cur = feed
         with Scripted(normal=feed) as rec:              # should stay silent; scripted too so that exactness is judged
@@ -394,39 +461,57 @@ class LegacyDrawer(Drawer):
 # --------------------------------------------------------------------------- the read-off oracle
 
 def _states(rs, n, xm, C):
+    """Two current states: a few posterior sd away from the mean, and a far / absolute one (zeros is the default
+    initial point of both samplers)."""
     sd = float(np.sqrt(np.max(np.diag(C))))
     a = xm + sd * rs.standard_normal(n) * 3.0
-    b = rs.standard_normal(n) * rs.choice([0.1, 10.0, 1000.0])
+    which = rs.randint(4)
+    if which == 0:
+        b = np.zeros(n)
+    elif which == 1:
+        b = xm + sd * rs.standard_normal(n) * 30.0
+    elif which == 2:
+        b = xm + sd * rs.standard_normal(n) * 300.0
+    else:
+        b = rs.standard_normal(n) * rs.choice([10.0, 1000.0])
     return a, b
 
 def _read_affine(ctx, cfg, drawer, xm, C, rs, states, tag, cond, check_state_indep=True):
-    """Reads x(e) = xbar + B e off the real sampler and compares with (xm, C). Returns (xbar, B, ok) or None."""
+    """Reads x(e) = xbar + B e off the real sampler and compares with (xm, C).
+    Returns (xbar, B, ok, tol_x) or None."""
     n = len(xm)
     sd = float(np.sqrt(np.max(np.diag(C))))
     scale = max(float(np.max(np.abs(xm))), sd, 1e-300)
     sA, sB = states
     dist = max(float(np.linalg.norm(sA - xm)), float(np.linalg.norm(sB - xm))) + 20.0 * sd * np.sqrt(n)
     xmax = max(float(np.max(np.abs(xm))), float(np.max(np.abs(sA))), float(np.max(np.abs(sB)))) + 20.0 * sd
-    tol_x = _xtol(scale, cond, dist, xmax)
-    ctx.note("tol_x_over_sd", tol_x / sd)
+    # ---- all transitions first (the comparison tolerance follows the loosest solver tolerance that was needed)
     x0 = drawer.draw(sA, None)
     if drawer.N is None or drawer.N == 0:
         ctx.inconclusive("no normal draw observed during a step: perturbation not scriptable")
         return None
     N = drawer.N
     ctx.note("normal_layout", [list(map(str, l)) for l in drawer.layout][:4])
-    ctx.count(f"{tag}_mean_checked")
-    ok = True
-    if not ctx.close(x0, xm, rtol=0.0, atol=tol_x):
-        ok = False
-        ctx.violation(f"{tag}_mean_mismatch", cfg,
-                      detail=f"draw with zero perturbation {x0.tolist()} != closed-form mean {xm.tolist()} "
-                             f"(max abs err {np.max(np.abs(x0 - xm)):.3g}, posterior sd {sd:.3g}, N={N})")
     B = np.zeros((n, N))
     for i in range(N):
         e = np.zeros(N); e[i] = 1.0
         st = sA if (i % 2 == 0) else sB
         B[:, i] = drawer.draw(st, e) - x0
+    gs = [rs.standard_normal(N) * (1.0 if j == 0 else 5.0) for j in range(2)]
+    xas = [drawer.draw(sA, g) for g in gs]
+    xbs = [drawer.draw(sB, g) for g in gs] if check_state_indep else []
+    xb0 = drawer.draw(sB, None) if check_state_indep else None
+    tol_x = _xtol(scale, cond, dist, xmax, drawer.loosest_tol)
+    ctx.note("tol_x_over_sd", tol_x / sd)
+    # ---- offset == closed-form mean
+    ok = True
+    ctx.count(f"{tag}_mean_checked")
+    if not ctx.close(x0, xm, rtol=0.0, atol=tol_x):
+        ok = False
+        ctx.violation(f"{tag}_mean_mismatch", cfg,
+                      detail=f"draw with zero perturbation {x0.tolist()} != closed-form mean {xm.tolist()} "
+                             f"(max abs err {np.max(np.abs(x0 - xm)):.3g}, posterior sd {sd:.3g}, N={N})")
+    # ---- linear part reproduces the covariance
     Cobs = B @ B.T
     ctx.count(f"{tag}_cov_entries_checked", n * n)
     tol_c = RTOL * float(np.max(np.abs(C))) + 4.0 * N * tol_x * (float(np.max(np.abs(B))) + tol_x)
@@ -435,26 +520,22 @@ def _read_affine(ctx, cfg, drawer, xm, C, rs, states, tag, cond, check_state_ind
         ctx.violation(f"{tag}_cov_mismatch", cfg,
                       detail=f"B B^T of the read-off linear part differs from the closed-form covariance: max abs err "
                              f"{np.max(np.abs(Cobs - C)):.3g} vs max |C| {np.max(np.abs(C)):.3g}; diag obs {np.diag(Cobs).tolist()} ref {np.diag(C).tolist()}")
-    # affine in e (superposition) and independent of the current state
+    # ---- affine in e (superposition) and independent of the current state
     bscale = max(scale, float(np.max(np.abs(B))))
-    for j in range(2):
-        g = rs.standard_normal(N) * (1.0 if j == 0 else 5.0)
+    for j, g in enumerate(gs):
         pred = x0 + B @ g
-        xa = drawer.draw(sA, g)
         ctx.count(f"{tag}_affine_checked")
         tol_g = RTOL * bscale * max(1.0, float(np.max(np.abs(g)))) + (2.0 + float(np.sum(np.abs(g)))) * tol_x
-        if not ctx.close(xa, pred, rtol=0.0, atol=tol_g):
+        if not ctx.close(xas[j], pred, rtol=0.0, atol=tol_g):
             ok = False
-            ctx.violation(f"{tag}_not_affine", cfg, detail=f"x(g) != x(0) + B g: max abs err {np.max(np.abs(xa - pred)):.3g} (scale {bscale:.3g})")
+            ctx.violation(f"{tag}_not_affine", cfg, detail=f"x(g) != x(0) + B g: max abs err {np.max(np.abs(xas[j] - pred)):.3g} (scale {bscale:.3g})")
         if check_state_indep:
-            xb = drawer.draw(sB, g)
             ctx.count(f"{tag}_state_independence_checked")
-            if not ctx.close(xb, xa, rtol=0.0, atol=tol_g):
+            if not ctx.close(xbs[j], xas[j], rtol=0.0, atol=tol_g):
                 ok = False
                 ctx.violation(f"{tag}_state_dependence", cfg,
-                              detail=f"same perturbation from two current states gives different draws: max abs diff {np.max(np.abs(xa - xb)):.3g} (scale {bscale:.3g})")
+                              detail=f"same perturbation from two current states gives different draws: max abs diff {np.max(np.abs(xas[j] - xbs[j])):.3g} (scale {bscale:.3g})")
     if check_state_indep:
-        xb0 = drawer.draw(sB, None)
         ctx.count(f"{tag}_state_independence_checked")
         if not ctx.close(xb0, x0, rtol=0.0, atol=2.0 * tol_x):
             ok = False
@@ -511,7 +592,7 @@ def _check_stacked(ctx, cfg, sampler, n, H, rhs, rs, tag="stacked"):
 _BUILD_REFUSALS = (ValueError, TypeError, NotImplementedError)
 
 def _solver_args(Ntot):
-    return {"maxit": int(10 * Ntot + 200), "tol": 1e-14}
+    return {"maxit": int(10 * Ntot + 200), "tol": SOLVER_TOL}
 
 def _gen_rto_problem(cuqi, case, rs):
     """-> dict with library objects and the dense reference ingredients; well-posed by construction
@@ -635,6 +716,9 @@ def _run_rto(case, ctx):
     K = 3
     g = rs.standard_normal((K, N))
     X = drawer.draw(sB, g.ravel(), steps=K)
+    tol_x = max(tol_x, _xtol(max(float(np.max(np.abs(prob["xm"]))), float(np.sqrt(np.max(np.diag(prob["C"]))))), prob["cond"],
+                             float(np.linalg.norm(sB - prob["xm"])) + 40.0 * float(np.sqrt(np.max(np.diag(prob["C"])))) * np.sqrt(n),
+                             float(np.max(np.abs(sB))) + float(np.max(np.abs(x0))) + float(np.max(np.abs(B))) * 10, drawer.loosest_tol))
     bscale = max(float(np.max(np.abs(x0))), float(np.max(np.abs(B))), 1e-300) * max(1.0, float(np.max(np.abs(g))))
     for j in range(K):
         ctx.count("rto_chain_draws_checked")
